@@ -496,9 +496,16 @@ func verif_Rewrite(r *httputil.ProxyRequest) {
 func verif_Rewrite_preserves(r *httputil.ProxyRequest) {
 	verif.Requires(r.Out.Header != nil && r.In.Header != nil && r.Out.URL != nil, "requests_have_header_maps")
 	method0, path0, query0, body0 := r.Out.Method, r.Out.URL.Path, r.Out.URL.RawQuery, r.Out.Body
+	rawPath0, opaque0, force0, frag0, user0 := r.Out.URL.RawPath, r.Out.URL.Opaque, r.Out.URL.ForceQuery, r.Out.URL.Fragment, r.Out.URL.User
+	xff0 := r.In.Header["X-Forwarded-For"]
 	verif.ResetEvents()
 	verif.CallTarget(r)
 	verif.Ensures(r.Out.Method == method0 && r.Out.URL.Path == path0 && r.Out.URL.RawQuery == query0 && verif.Same(r.Out.Body, body0), "method_path_query_body_untouched")
+	verif.Ensures(r.Out.URL.RawPath == rawPath0 && r.Out.URL.Opaque == opaque0 && r.Out.URL.ForceQuery == force0 && r.Out.URL.Fragment == frag0 && r.Out.URL.User == user0, "escaping_of_the_request_target_untouched")
+	// the whole forwarded-for chain (every header line) is carried over, by
+	// assignment of the value list, before the proxy appends the user's address
+	const evHdr = "mapset:H.net.http.Request.Header"
+	verif.Ensures(verif.CalledWith(evHdr, 1, "X-Forwarded-For") && verif.Same(verif.NthArg[[]string](evHdr, 0, 2), xff0) && verif.CalledBefore(evHdr, "ProxyRequest).SetXForwarded"), "whole_forwarded_for_chain_carried_over")
 	verif.Ensures(verif.Called("ProxyRequest).SetXForwarded"), "users_address_appended_to_forwarded_for")
 }
 
@@ -539,11 +546,10 @@ func verifSetsResponseHeader(k, v string, r *http.Response) bool {
 func verif_ErrorHandler(rw http.ResponseWriter, req *http.Request, err error) {
 	verif.Requires(req != nil, "request_present")
 	ne, isNet := err.(net.Error)
+	timeout := isNet && ne.Timeout() // any error that says it is a timeout, whatever its concrete type
 	verif.ResetEvents()
 	verif.CallTarget(rw, req, err)
 	verif.Ensures(verif.CallCount("ResponseWriter).WriteHeader") == 1, "exactly_one_status")
-	timeout := isNet && verif.Called("net.Error).Timeout") && verif.RetBool("net.Error).Timeout", 0)
-	_ = ne
 	if timeout {
 		verif.Ensures(verif.CalledWith("ResponseWriter).WriteHeader", 1, http.StatusGatewayTimeout) && !verif.Called("ResponseWriter).Write$"), "timeout_answers_504")
 	} else {
